@@ -17,7 +17,7 @@ for name in names:
     try:
         rc, o = run(["git", "-C", "/repo", "apply", "--whitespace=nowarn", d + "/patch.diff"])
         assert rc == 0, o
-        rc, o = run(["/verif/bin/check", "-p", "all", "-json", "-no-selftest"], "/verif")
+        rc, o = run(["timeout", "400", "/verif/bin/check", "-p", "all", "-json", "-no-selftest"], "/verif")
         line = o.strip().splitlines()[-1] if o.strip() else "[]"
         for f in json.loads(line) or []:
             fired.setdefault(f["property"], []).append(f"{f['rule']} {f['function']}: {f['construct']}" + (" (undecided)" if f["kind"] != "violation" else ""))
